@@ -33,7 +33,7 @@ spec -> code: TLC builds argument lists by actions (a bottom-up stack machine, s
     value).  Every compiled template is rendered more than once: the probe tag with both contexts
     in every layout and - in one layout per list - inside {% for it in its %} (four evaluations of
     one tag instance, the loop variable feeding filter arguments such as "k"|add:it), the
-    component tag / shorthand tag / slot with both contexts in one layout per list.  Every
+    component tag / slot with both contexts in one layout per list.  Every
     evaluation must hand over the values of ITS context / iteration.
 code -> spec: a seeded random driver builds deeper / wider lists (over the syntax-sensitive and the
     value-sensitive leaves together) with random styles (knob values outside the covering array),
@@ -80,7 +80,7 @@ RULE = ("TLC (MC_C02) enumerates by BFS every argument list inside the bounds of
         "samples deeper ones with -simulate (S); each list is replayed on the probe tag and on the component tag "
         "in k layouts of a 15-row pairwise covering array (quick k=3, thorough k=5 - N/M: 3 -, rotating with the case number); "
         "every compiled template is rendered with two contexts that differ in every variable (probe tag: every "
-        "layout, once inside a {% for %}; component / shorthand / slot: one layout per list), behind a {% load %} of "
+        "layout, once inside a {% for %}; component / slot: one layout per list), behind a {% load %} of "
         "three libraries whose filters / tags the value alphabets use; "
         "random deeper lists are validated by Trace_C02 in both renders.  Non-trivial = anything but a single plain positional "
         "leaf; distinct by hash of the abstract argument list")
@@ -475,9 +475,9 @@ def check_case(case: Dict[str, Any], styles: List[Dict[str, Any]], sfrom: int,
     """Replay one exported case under the exported styles (`pick`: positions in case["texts"],
     default all); -> list of failures.  Every compiled template is rendered more than once:
     in the first replayed layout (form True) the probe tag stands in {% for it in its %} and is
-    rendered with both contexts (four evaluations of one tag instance), the component tag, the
-    shorthand tag and - for keyword-only lists - the slot are rendered with both contexts; in the
-    other layouts (form False) the probe tag with both contexts, the component tag with the first.
+    rendered with both contexts (four evaluations of one tag instance), the component tag and - for
+    keyword-only lists - the slot are rendered with both contexts, the shorthand tag with the first;
+    in the other layouts (form False) the probe tag with both contexts, the component tag with the first.
     Each evaluation must hand over what the arguments denote in ITS context (case["expects"][k],
     leaves valued by stock Django in that context / loop iteration)."""
     e = env()
@@ -507,8 +507,8 @@ def check_case(case: Dict[str, Any], styles: List[Dict[str, Any]], sfrom: int,
         seen_first = True
         both = list(range(nctx))
         plan = [("probe", both, first and can_loop), ("comp", both if first else [0], False)]
-        if first:
-            plan += [("short", both, False)] + ([("slot", both, False)] if case.get("slot") else [])
+        if first:      # (the shorthand tag differs from the component tag in how its NAME is found: one context)
+            plan += [("short", [0], False)] + ([("slot", both, False)] if case.get("slot") else [])
         for path, runs, loop in plan:
             res = observe_runs(path, text, st["slash"], runs, loop)
             for k, obss in zip(runs, res):
@@ -687,12 +687,12 @@ def replay_cases(chk: Check, header, cases, label: str, procs: int, k: Optional[
     nslot = sum(1 for c in cases if c.get("slot"))
     chk.add("cases_replayed", len(cases))
     chk.add("texts_replayed", ntexts)
-    # per case: first layout probe (in a loop) / comp / short (/ slot) with both contexts, the other layouts
-    # probe with both contexts and comp with the first
+    # per case: first layout probe (in a loop) / comp (/ slot) with both contexts and short with the first, the
+    # other layouts probe with both contexts and comp with the first
     chk.add("compiled_templates", 2 * ntexts + len(cases) + nslot)
-    chk.add("real_renders", 6 * len(cases) + 2 * nslot + 3 * (ntexts - len(cases)))
-    chk.add("tag_evaluations", 8 * len(cases) + 2 * nslot + 3 * (ntexts - len(cases)))
-    chk.add("second_context_renders", 3 * len(cases) + nslot + (ntexts - len(cases)))
+    chk.add("real_renders", 5 * len(cases) + 2 * nslot + 3 * (ntexts - len(cases)))
+    chk.add("tag_evaluations", 7 * len(cases) + 2 * nslot + 3 * (ntexts - len(cases)))
+    chk.add("second_context_renders", 2 * len(cases) + nslot + (ntexts - len(cases)))
 
 
 def nontrivial(case) -> bool:
@@ -1216,6 +1216,33 @@ def code_to_spec(chk: Check, header, ntraces: int, depth: int, batch: int = 400,
     chk.add("traces_validated_against_impl", total)
 
 
+def _trace_job(job):
+    """code -> spec in a process of its own (it goes on while the exported cases are replayed):
+    -> the reports and counts for the parent's Check."""
+    from . import core
+    seed, ntraces, depth, _JVM["small"] = job
+    n0 = len(core._workdirs)
+    try:
+        class Collect:          # what code_to_spec uses of a Check
+            def __init__(self):
+                self.seed, self.counts, self.adds = seed, [], {}
+
+            def count(self, case, nontrivial=True):
+                self.counts.append(case)
+
+            def add(self, key, n=1):
+                self.adds[key] = self.adds.get(key, 0) + n
+        col = Collect()
+        later: List[Any] = []
+        t0 = time.time()
+        code_to_spec(col, header_only(workdir("c02th")), ntraces, depth, later=later)
+        return {"later": later, "counts": col.counts, "adds": col.adds, "wall": round(time.time() - t0, 1)}
+    finally:
+        import shutil
+        for d in core._workdirs[n0:]:       # this process leaves through os._exit: no atexit clean-up
+            shutil.rmtree(d, ignore_errors=True)
+
+
 def _verdicts(r, n: int) -> Dict[int, Optional[List[str]]]:
     """id -> None (ACCEPT) | statuses: layout, the four receivers in the first render, the four in the second."""
     out: Dict[int, Optional[List[str]]] = {}
@@ -1235,15 +1262,26 @@ def run(tier: str) -> int:
     env()
     chk = Check(PID, tier, "model_checking")
     w = workdir("c02mc")
-    # all TLC runs start now; while they enumerate, the random driver records its traces
-    exports = export_cases(tier, w, sim=True, seed=chk.seed, lazy_props=True)
-    later: List[Any] = []
-    t0 = time.time()
-    code_to_spec(chk, header_only(w), ntraces=600 if tier == "quick" else 6000, depth=3 if tier == "quick" else 4,
-                 later=later)
-    chk.cov.setdefault("phase_wall_s", {})["traces"] = round(time.time() - t0, 1)
-    spec_to_code(chk, tier, procs=8, k=3 if tier == "quick" else 5, exports=exports)
-    for what, a, kw in later:
+    # The random driver records and validates its traces in a process of its own.  It is forked FIRST:
+    # a process forked while a thread is starting a TLC run inherits the write ends of that run's pipes
+    # and keeps them open for as long as it lives - the thread would never see the end of TLC's output.
+    tp = mp.get_context("fork").Pool(1)
+    try:
+        tr = tp.apply_async(_trace_job, ((chk.seed, 600 if tier == "quick" else 6000, 3 if tier == "quick" else 4,
+                                          tier != "thorough"),))
+        # all TLC runs start now
+        exports = export_cases(tier, w, sim=True, seed=chk.seed, lazy_props=True)
+        spec_to_code(chk, tier, procs=8, k=3 if tier == "quick" else 5, exports=exports)
+        t0 = time.time()
+        res = tr.get(timeout=3000)
+    finally:
+        tp.terminate()
+    chk.cov["phase_wall_s"].update(wait_traces=round(time.time() - t0, 1), traces=res["wall"])
+    for case in res["counts"]:
+        chk.count(case, True)
+    for key, n in res["adds"].items():
+        chk.add(key, n)
+    for what, a, kw in res["later"]:
         getattr(chk, what)(*a, **kw)
     chk.cov["exhaustive"] = True
     chk.cov["rule"] = RULE
